@@ -168,11 +168,23 @@ impl<NonceSize: Unsigned, Rounds, IsX> ChaChaAny<NonceSize, Rounds, IsX> {
     }
 }
 
-impl<NonceSize, Rounds: Unsigned, IsX> ChaChaAny<NonceSize, Rounds, IsX> {
+impl<NonceSize: Unsigned, Rounds: Unsigned, IsX> ChaChaAny<NonceSize, Rounds, IsX> {
     #[inline]
     fn try_apply_keystream(&mut self, data: &mut [u8]) -> Result<(), ()> {
-        self.state
-            .try_apply_keystream::<WideEnabled>(data, Rounds::U32)
+        if NonceSize::U32 != 12 {
+            return self
+                .state
+                .try_apply_keystream::<WideEnabled>(data, Rounds::U32);
+        }
+        // 32-bit counter: the block counter increment shared with the 64-bit variants carries
+        // into the first nonce word when the last block is generated; undo that.
+        let nonce0 = self.state.state.get_stream_param(0) >> 32;
+        let res = self
+            .state
+            .try_apply_keystream::<WideEnabled>(data, Rounds::U32);
+        let ctr = self.state.state.get_stream_param(0) & 0xffff_ffff;
+        self.state.state.set_stream_param(0, (nonce0 << 32) | ctr);
+        res
     }
 }
 
@@ -217,7 +229,9 @@ impl<NonceSize: Unsigned, Rounds, IsX> StreamCipherSeek for ChaChaAny<NonceSize,
     }
 }
 
-impl<NonceSize, Rounds: Unsigned, IsX> StreamCipher for ChaChaAny<NonceSize, Rounds, IsX> {
+impl<NonceSize: Unsigned, Rounds: Unsigned, IsX> StreamCipher
+    for ChaChaAny<NonceSize, Rounds, IsX>
+{
     #[inline]
     fn try_apply_keystream(&mut self, data: &mut [u8]) -> Result<(), LoopError> {
         Self::try_apply_keystream(self, data).map_err(|_| LoopError)
